@@ -53,6 +53,11 @@ elif PRE == "logging-set-up":
 elif PRE == "warnings-error":
     import warnings
     warnings.simplefilter("error")
+elif PRE == "namesake":
+    # the client's own adapter module is named after the library it wraps
+    import types
+    for _n in ("myapp", "myapp.parsers", "myapp.parsers.chartparse", "vendor.chartparse"):
+        sys.modules[_n] = types.ModuleType(_n)
 elif PRE == "elsewhere":
     import os
     os.chdir("/")
@@ -155,12 +160,15 @@ def modules():
 FORMS = ["module", "stmt", "from", "dunder"]
 
 
-PRES = ["decimal-strict", "no-stdio", "duck-stdio", "logging-set-up", "warnings-error", "elsewhere"]
+PRES = ["decimal-strict", "no-stdio", "duck-stdio", "logging-set-up", "warnings-error", "elsewhere", "namesake", "bad-locale"]
 
 
 def run_order(order, flags=(), form="module", path=None, pre=""):
     # always compile from source (compile-time warnings exist only then): no bytecode is read or written
     env = dict(os.environ, PYTHONPATH=str(path or fw.REPO), PYTHONDONTWRITEBYTECODE="1", PYTHONPYCACHEPREFIX="/nonexistent/chartparse-verif-no-cache")
+    if pre == "bad-locale":
+        # a locale name the host does not have (ssh forwarding LANG into a minimal container): the interpreter starts normally
+        env.update(LC_ALL="xx_XX.UTF-8", LANG="xx_XX.UTF-8")
     p = subprocess.run(["/venv/bin/python", *flags, "-c", SCRIPT, json.dumps(order), form, pre], stdout=subprocess.PIPE,
                        stderr=subprocess.PIPE, env=env, timeout=120)
     try:
